@@ -25,6 +25,8 @@ int fftw_shim_error(void) { return g_error; }
 void fftw_shim_clear_error(void) { g_error = 0; }
 long fftw_shim_nexec(void) { return g_nexec; }
 int fftw_shim_live_allocs(void) { return g_nalloc; }
+static long g_nplans = 0;
+long fftw_shim_live_plans(void) { return g_nplans; }
 
 void *fftw_malloc(size_t n) {
     void *p = NULL;
@@ -69,6 +71,7 @@ static fftw_plan mk(int kind, int rank, const int *n, int howmany, void *in, con
         pad(rank, n, ine, inplace, 1, p->ine); pad(rank, n, one, inplace, 0, p->one);
     }
     p->istride = is; p->idist = id; p->ostride = os; p->odist = od; p->in = in; p->out = out;
+    g_nplans++;
     return p;
 }
 fftw_plan fftw_plan_many_dft(int rank, const int *n, int howmany, fftw_complex *in, const int *ine,
@@ -83,7 +86,7 @@ fftw_plan fftw_plan_many_dft_c2r(int rank, const int *n, int howmany, fftw_compl
     int is, int id, double *out, const int *one, int os, int od, unsigned flags) {
     (void)flags; return mk(2, rank, n, howmany, in, ine, is, id, out, one, os, od, FFTW_BACKWARD);
 }
-void fftw_destroy_plan(fftw_plan p) { free(p); }
+void fftw_destroy_plan(fftw_plan p) { if (p) g_nplans--; free(p); }
 
 static size_t lin(int rank, const int *idx, const int *nembed) {
     size_t r = 0;
